@@ -103,13 +103,13 @@ pub fn cfg_for(prop: &str, seed: u64, index: u64) -> HistCfg {
     let mut rng = Rng::from_parts(&[seed, index, 0xC0F6, prop.bytes().fold(0u64, |a, b| a * 131 + b as u64)]);
     let profile = match prop {
         "C01" => *rng.pick(&[Profile::Rw, Profile::Rw, Profile::Rw, Profile::Mixed]),
-        "C02" => *rng.pick(&[Profile::Dirs, Profile::Rw, Profile::Mixed]),
-        "C03" => *rng.pick(&[Profile::Dirs, Profile::Fill, Profile::Mixed, Profile::Matrix]),
-        "C04" => *rng.pick(&[Profile::Dirs, Profile::Fill, Profile::Rw, Profile::Mixed]),
+        "C02" => *rng.pick(&[Profile::Dirs, Profile::Rw, Profile::Mixed, Profile::Grow]),
+        "C03" => *rng.pick(&[Profile::Dirs, Profile::Fill, Profile::Mixed, Profile::Matrix, Profile::Grow]),
+        "C04" => *rng.pick(&[Profile::Dirs, Profile::Fill, Profile::Rw, Profile::Mixed, Profile::Grow]),
         "C05" => *rng.pick(&[Profile::Fill, Profile::Fill, Profile::Dirs]),
         "C07" => *rng.pick(&[Profile::Matrix, Profile::Matrix, Profile::Dirs]),
         "C08" => Profile::Limits,
-        "C16" => *rng.pick(&[Profile::Fill, Profile::Dirs, Profile::Rw]),
+        "C16" => *rng.pick(&[Profile::Fill, Profile::Dirs, Profile::Rw, Profile::Grow]),
         _ => Profile::Mixed,
     };
     let limits = if prop == "C08" || rng.chance(1, 3) { LIMITS[(index as usize) % LIMITS.len()] } else { (4, 4, 1) };
@@ -136,7 +136,7 @@ pub fn cfg_for(prop: &str, seed: u64, index: u64) -> HistCfg {
         profile,
         limits,
         id_offset: *rng.pick(&[0u32, 5000, 5000, 0xFFFF_FFF0]),
-        nops: 20 + rng.usize_below(if profile == Profile::Fill { 300 } else { 180 }),
+        nops: 20 + rng.usize_below(if profile == Profile::Fill || profile == Profile::Grow { 300 } else { 180 }),
         two_parts: limits.2 >= 2 && rng.chance(1, 2),
         fat32,
         max_spc,
@@ -222,7 +222,46 @@ fn evidence_for(prop: &str) -> Evidence {
     }
 }
 
+/// Reduced workload for the Miri / sanitizer legs: no threads, no evidence file, small volumes.
+/// argv: --leg mini --n <histories> --shard k
+fn run_mini(ctx: &Ctx, prop: &str) -> i32 {
+    let n = ctx.arg_u64("n").unwrap_or(2);
+    let shard = ctx.arg_u64("shard").unwrap_or(0);
+    let mut evaluations = 0u64;
+    let mut violations = 0u64;
+    for i in 0..n {
+        let mut cfg = cfg_for(prop, ctx.seed, 1_000_000 + shard * 1000 + i);
+        cfg.fat32 = Some(false);
+        cfg.max_spc = 1;
+        cfg.two_parts = false;
+        cfg.recipe = Recipe::Small;
+        cfg.leave_free = None;
+        cfg.nops = ctx.arg_u64("ops").unwrap_or(60) as usize;
+        cfg.limits = LIMITS[((shard * 7 + i) as usize) % LIMITS.len()];
+        match run_history(&cfg) {
+            Ok(e) => {
+                evaluations += e.ops.len() as u64;
+                for v in e.viol.iter().filter(|v| v.prop == prop) {
+                    // known findings are filtered by the driver
+                    println!("MINI-VIOLATION {} :: {}", v.sig, v.msg);
+                    violations += 1;
+                }
+            }
+            Err(er) => println!("MINI-INCONCLUSIVE {}", er),
+        }
+    }
+    println!("MINI-DONE evaluations={} violations={}", evaluations, violations);
+    if violations > 0 {
+        1
+    } else {
+        0
+    }
+}
+
 pub fn run_model_check(ctx: &Ctx, prop: &str, quick_n: usize, thorough_n: usize) -> i32 {
+    if ctx.arg("leg") == Some("mini") {
+        return run_mini(ctx, prop);
+    }
     if let Some(rp) = &ctx.replay {
         let idx = rp.get("case").and_then(|c| c.get("history_index")).and_then(|x| x.as_u64()).unwrap_or(0);
         let cfg = cfg_for(prop, ctx.seed, idx);
